@@ -130,7 +130,7 @@ def confirm(res, hx, corr, suspects, mode=None, unit=None):
         return []
     uniq = {}
     for c, code, step in suspects:
-        if len(uniq) >= 300:
+        if len(uniq) >= 24:          # a handful is enough: at most five violations are reported
             break
         if unit:
             u = unit(c)
@@ -149,6 +149,12 @@ def confirm(res, hx, corr, suspects, mode=None, unit=None):
 def standard_flow(res, hx, corr, n, signature, describe, rule, nontrivial, key, stats, assumptions,
                   replay=None, mode=None, gen_obligations=None, level="proof", extra=None, shard=None, plans=None,
                   relevant=None, deterministic=False, unit=None):
+    import inspect
+    _sig3 = len(inspect.signature(signature).parameters) >= 3
+
+    def sig(c, step, code):
+        # a signature function may want to know which monitor fired: signature(case, step, code)
+        return signature(c, step, code) if _sig3 else signature(c, step)
     builds = core.build_all()
     broken = []          # names of proof obligations / ties that no longer check
     if not builds["translator"]["ok"]:
@@ -213,8 +219,8 @@ def standard_flow(res, hx, corr, n, signature, describe, rule, nontrivial, key, 
     suspects = [(c, code, step) for (c, code, step) in bad if code >= 2]
     # what falls under a listed finding's signature is reported as that finding; it needs no slow re-run
     known_sigs = {f["signature"] for f in core.known_findings(res.prop) if f.get("signature")}
-    listed = [(c, code, step) for (c, code, step) in suspects if code >= 3 and signature(c, step) in known_sigs]
-    suspects = [x for x in suspects if not (x[1] >= 3 and signature(x[0], x[2]) in known_sigs)]
+    listed = [(c, code, step) for (c, code, step) in suspects if code >= 3 and sig(c, step, code) in known_sigs]
+    suspects = [x for x in suspects if not (x[1] >= 3 and sig(x[0], x[2], x[1]) in known_sigs)]
     if deterministic:
         confirmed = suspects          # nothing timing-dependent in this harness: a re-run would repeat the same steps
     else:
@@ -229,8 +235,8 @@ def standard_flow(res, hx, corr, n, signature, describe, rule, nontrivial, key, 
         vio, corr_breaks = [], []
         for c, code, step in found:
             if code >= 3:
-                sig = signature(c, step)
-                kf = [f for f in core.known_findings(res.prop) if f["signature"] == sig] if sig else []
+                sg = sig(c, step, code)
+                kf = [f for f in core.known_findings(res.prop) if f.get("signature") == sg] if sg else []
                 if kf:
                     line = "%s (%s)" % (kf[0]["what"], kf[0]["id"])
                     if line not in res.known:
@@ -244,7 +250,7 @@ def standard_flow(res, hx, corr, n, signature, describe, rule, nontrivial, key, 
     vio, corr_breaks = triage(confirmed)
     # a history whose model/implementation difference falls under a listed finding's signature
     corr_breaks = [(c, code, step) for (c, code, step) in corr_breaks
-                   if not (signature(c, step) and any(f["signature"] == signature(c, step) for f in core.known_findings(res.prop)))]
+                   if not (sig(c, step, code) and any(f.get("signature") == sig(c, step, code) for f in core.known_findings(res.prop)))]
 
     if (broken or corr_breaks) and not vio and not replay and model_ok:
         # intensified search for a concrete failing history (DESIGN 6.2)
